@@ -92,12 +92,12 @@ Print Assumptions token_index_unique.
    of the same grant still yields tokens.  Witness, evaluated in the model and replayed on the real
    provider by the c05 suite on every run: *)
 Definition k0_world : world :=
-  let c2 := mkClient 2 false [GAuthorizationCode; GRefreshToken] ["code"] ["https://c2.example/cb"] "openid" CibaNone false false false false false false false 0 false in
+  let c2 := mkClient 2 false [GAuthorizationCode; GRefreshToken] ["code"] ["https://c2.example/cb"] "openid" CibaNone false false false false false false false 0 false None in
   mkWorld (match build POpenID [WithAuthorizationCodeGrant; WithRefreshTokenGrant 1000%Z; WithTokenRevocation; WithTokenLifetime 40%Z] with Some c => c | None => base_config POpenID end) [c2].
 Definition k0_ops : list op :=
-  let p := mkParams 0 "https://c2.example/cb" "" "code" "openid" "st" "" PkEmpty "" 0 "" 0 "" [] in
-  let tr code rt := mkTReq (mkCred 2 true) no_bind "" code "https://c2.example/cb" rt PkEmpty 0 HgOk BaApprove [] AsNone in
-  [OpAuthorize (mkAReq 2 p true (PolSuccess "alice" "openid" []));
+  let p := mkParams 0 "https://c2.example/cb" "" "code" "openid" "st" "" PkEmpty "" 0 "" 0 "" [] None in
+  let tr code rt := mkTReq (mkCred 2 true) no_bind "" code "https://c2.example/cb" rt PkEmpty 0 HgOk BaApprove [] AsNone None in
+  [OpAuthorize (mkAReq 2 p true (PolSuccess "alice" "openid" [] []));
    OpToken GAuthorizationCode (tr (mint 0 KCode) 0);
    OpTick 45%Z;
    OpRevoke (mkQReq (mkCred 2 true) (PExact (mint 1 KAtOpaque)) true);
